@@ -16,7 +16,7 @@ RULE = (
     "parameter, user-supplied scalar and array-valued log_lik/log_prior/log_prob nodes) and DistRegBuilder models (p-/np-smooths, "
     "full-rank and deficient penalties); each evaluated at build time and after random admissible "
     "assignments (auto-update on, off + full update, off + targeted update of the totals); each built twice with per_obs flipped on a random "
-    "subset; float32 and x64. Also: rejected dist_node/value_node re-assignments between variables before the build; values from re-used in-place refilled NumPy buffers; variables flagged parameter AND observed; models rebuilt from popped nodes whose values changed while they belonged to no model. non-trivial = >= 2 distribution nodes of different flag classes and one of "
+    "subset; float32 and x64. Also: rejected dist_node/value_node re-assignments between variables before the build; values from re-used in-place refilled NumPy buffers; variables flagged parameter AND observed; models rebuilt from popped nodes whose values changed while they belonged to no model. Round 5: update mode 'mixed' (auto-update off for the first assignments, on for the rest). non-trivial = >= 2 distribution nodes of different flag classes and one of "
     "{weak intermediate var, per_obs=False, transformed variable, dist without var}; distinct by program hash"
 )
 REQUIRED = ["log_prob_equals_joint_density", "log_lik_equals_observed_sum", "log_prior_equals_parameter_sum",
